@@ -11,7 +11,7 @@ RULE = ("HEX-MALFORMED: per variant, single-byte damage of a valid string (every
         "valid stream of HEX-RT.  HEX-PAIR-SWEEP: all 65536 byte pairs at a header digit-pair position and at a body "
         "digit-pair position (quick: Normal; thorough: every variant, checksum/length/Q/body/last pair).  Each case is "
         "decided against the property text (independent Python restatement) and against the model.  "
-        "Non-trivial = not rejected for its length alone; distinct by case text.")
+        "Non-trivial = not rejected for its length alone; distinct by case text.  Both suites are repeated (malformed stream halved in quick) on the builds with the table decoders: no hex-simd, half, quarter and min decode tables.")
 
 
 def run(ctx):
@@ -27,6 +27,18 @@ def run(ctx):
     ctx.correspond("HEX-PAIR-SWEEP", sweep, hb, db, flags=fl, predicate=hc.pred_parse_lenient, coq_sample=8,
                    nontrivial=lambda c, i: True)
     ctx.suites["HEX-PAIR-SWEEP"]["exhaustive_over"] = "all 65536 byte pairs at each swept digit-pair position"
+    # the other decoders (table decoders without hex-simd; half / quarter / min tables): same cases, model under the matching flags;
+    # the pair sweep at full size on the no-hex-simd build, sampled on the others
+    for name in ["nosimd", "lowmem", "decq", "decmin"]:
+        hb2 = ctx.harness(name)
+        if hb2 is None:
+            continue
+        fl2 = configs.flags(name)
+        ctx.correspond("HEX-MALFORMED[%s]" % name, cases[::(2 if ctx.tier == "quick" else 1)], hb2, db, flags=fl2,
+                       predicate=hc.pred_parse_lenient, coq_sample=0, nontrivial=lambda c, i: "InvalidStringLength" not in i)
+        sw = sweep if name == "nosimd" or ctx.tier != "quick" else sweep[::7]
+        ctx.correspond("HEX-PAIR-SWEEP[%s]" % name, sw, hb2, db, flags=fl2, predicate=hc.pred_parse_lenient, coq_sample=0,
+                       nontrivial=lambda c, i: True)
     kinds = ctx.suites["HEX-MALFORMED"]["outcomes"]
     ctx.notes.append("error-kind distribution is in suites.HEX-MALFORMED.outcomes: %s" % kinds)
     return finish(ctx)
